@@ -1,6 +1,7 @@
 // sec: bindings of the Sec.tla family of specifications (C22 C23 C25 C26) to the real pdfcpu code.
 //
-//	sec c25 --in cases.ndjson --out mism.ndjson --shard i --of n   replay TLC histories (SecHist.tla) through the *File API
+//	sec c25split --in cases.ndjson --prefix p --n k                 distribute the SecHist.tla cases over k shard files
+//	sec c25 --in shard.ndjson --out mism.ndjson --shard i --of n   replay TLC histories (SecHist.tla) through the *File API
 //	sec c26 --in cases.ndjson --out records.ndjson                 end-to-end permission matrix records (judged by SecPermTrace.tla)
 //	sec c22 --in cases.ndjson --out mism.ndjson                    encrypt/open/decrypt round trips (SecRT.tla cases)
 //	sec c23 --in cases.ndjson --out records.ndjson                 plaintext-marker visibility records (judged by SecLeakTrace.tla)
@@ -9,7 +10,6 @@ package main
 import (
 	"errors"
 	"os"
-	"runtime/pprof"
 
 	"github.com/pdfcpu/pdfcpu/pkg/api"
 	"github.com/pdfcpu/pdfcpu/pkg/pdfcpu"
@@ -66,11 +66,6 @@ func permFlags(p int) model.PermissionFlags { return model.PermissionFlags(uint1
 
 func main() {
 	api.DisableConfigDir()
-	if pf := os.Getenv("SEC_PPROF"); pf != "" {
-		f, _ := os.Create(pf)
-		pprof.StartCPUProfile(f)
-		defer pprof.StopCPUProfile()
-	}
 	if len(os.Args) < 2 {
 		h.Die("usage: sec c25|c26|c22|c23 ...")
 	}
